@@ -67,15 +67,17 @@ def explain (σ : String → Nat → α) (n : Nat) : F α → Ivs → Bool → E
   | .bin op φ ψ, I, flag =>
       let s1 := fun i => rho σ n φ i
       let s2 := fun i => rho σ n ψ i
-      let both (I1 I2 : Ivs) : Except Unit (List (String × Ivs)) := do
-        let a ← explain σ n φ I1 flag
+      let both (f1 : Bool) (I1 I2 : Ivs) : Except Unit (List (String × Ivs)) := do
+        let a ← explain σ n φ I1 f1
         let b ← explain σ n ψ I2 flag
         pure (a ++ b)
       match op, flag with
-      | .and, false => both (runsAll (fun i => isUnsat (s1 i)) I) (runsAll (fun i => isUnsat (s2 i)) I)
-      | .or, true => both (runsAll (fun i => isSat (s1 i)) I) (runsAll (fun i => isSat (s2 i)) I)
-      | .implies, true => both (runsAll (fun i => isUnsat (s1 i)) I) (runsAll (fun i => isSat (s2 i)) I)
-      | _, _ => both I I                                -- explain_binary
+      | .and, false => both flag (runsAll (fun i => isUnsat (s1 i)) I) (runsAll (fun i => isUnsat (s2 i)) I)
+      | .or, true => both flag (runsAll (fun i => isSat (s1 i)) I) (runsAll (fun i => isSat (s2 i)) I)
+      -- the antecedent is visited with the opposite polarity
+      | .implies, true => both (!flag) (runsAll (fun i => isUnsat (s1 i)) I) (runsAll (fun i => isSat (s2 i)) I)
+      | .implies, false => both (!flag) I I
+      | _, _ => both flag I I                           -- explain_binary
   | .tmp1 op φ, I, flag =>
       let s := fun i => rho σ n φ i
       match op, flag with
